@@ -96,7 +96,7 @@ fn run_case(cx: &CaseCtx, rep: &mut Report) {
 	let mut rng = cx.rng();
 	let n = rng.range(2, 4) as usize;
 	let mixed = rng.bool();
-	let enc = imvt::EncOpts { dup_keys: rng.chance(0.4), dup_vals: rng.chance(0.4), unused_entries: rng.chance(0.3), foreign_field_order: rng.chance(0.5) };
+	let enc = imvt::EncOpts { dup_keys: rng.chance(0.4), dup_vals: rng.chance(0.4), unused_entries: rng.chance(0.3), foreign_field_order: rng.chance(0.5), split_packed: rng.chance(0.25) };
 	let go = imvt::GenOpts { extreme_values: rng.chance(0.5), wide_tables: if cx.tier.is_tiny() { 0.0 } else { 0.03 }, ..Default::default() };
 	let mut sets = gen_vector_sets(&mut rng, n, &go, mixed, &enc);
 	if cx.tier.is_tiny() {
